@@ -29,8 +29,8 @@ type params struct {
 	Kind    string // http | json | static
 	Targets int
 	Callers int
-	Draws   int // static only: draws per caller
-	Chunk   int // reader granularity: 0 = one line per Read, n = n bytes per Read
+	Draws   int  // static only: draws per caller
+	Chunk   int  // reader granularity: 0 = one line per Read, n = n bytes per Read
 	Defs    bool // default headers whose value slice has spare capacity (as three -header flags with one key build it); every target repeats that key
 }
 
@@ -79,13 +79,21 @@ func defaults(on bool) http.Header {
 }
 
 // yieldReader hands out the document piecewise and yields before every Read.
+// Like an *os.File (what the command passes) it is an io.Closer, and reading it
+// after Close fails with os.ErrClosed rather than io.EOF.
 type yieldReader struct {
 	pieces []string
 	i      int
+	closed bool
 }
+
+func (r *yieldReader) Close() error { r.closed = true; return nil }
 
 func (r *yieldReader) Read(p []byte) (int, error) {
 	vsched.Yield("read")
+	if r.closed {
+		return 0, os.ErrClosed
+	}
 	if r.i >= len(r.pieces) {
 		return 0, io.EOF
 	}
